@@ -146,6 +146,9 @@ def _shard(arg):
         n_o = draw(st.integers(4, max_no))
         kind = draw(st.sampled_from(["list", "list", "tuple", "linspace", "range"]))
         T = draw(st.integers(2, 6))
+        if kind in ("linspace", "range") and draw(st.integers(0, 3)) == 0:
+            T = draw(st.integers(7, 64))          # many shells (linspace defaults to 50 radii)
+            n_o = min(n_o, 24)                    # keeps the dense n x n comparison small
         if kind in ("list", "tuple"):
             spacing = draw(st.sampled_from(["free", "free", "nearly_regular", "tiny"]))
             if spacing == "free":
@@ -169,8 +172,12 @@ def _shard(arg):
         elif kind == "linspace":
             a = Fraction(draw(st.integers(1, 2000)), 1000)
             span = Fraction(draw(st.integers(1, 3000)), 1000)
-            args = [dec(a), dec(a + span), str(T)]
-            text = f"linspace({args[0]}, {args[1]}, {T})"
+            if T == 50 and draw(st.booleans()):
+                args = [dec(a), dec(a + span), "50"]
+                text = f"linspace({args[0]}, {args[1]})"          # the default number of radii
+            else:
+                args = [dec(a), dec(a + span), str(T)]
+                text = f"linspace({args[0]}, {args[1]}, {T})"
         else:
             a = Fraction(draw(st.integers(1, 2000)), 1000)
             step = Fraction(draw(st.integers(10, 1000)), 1000)
@@ -190,7 +197,7 @@ def _shard(arg):
             levels = {"ico": (12, 42, 162), "cube3D": (8, 26, 98)}
             partial = case["n_o"] not in levels.get(case["o_alg"], ())
             res.case(sample=case, nontrivial=uneq or partial, key=case,
-                     classes=[f"o={case['o_alg']}", f"t={case['t_kind']}", f"T={len(r)}"] + (["unequal_increments"] if uneq else []))
+                     classes=[f"o={case['o_alg']}", f"t={case['t_kind']}", f"T={len(r)}" if len(r) <= 6 else "T>6"] + (["unequal_increments"] if uneq else []))
             if msgs:
                 fail(case, "; ".join(msgs))
         return test
@@ -210,7 +217,7 @@ def replay(case):
 def run(tier):
     total, max_no = (960, 60) if tier == "quick" else (4800, 200)
     res = merge_results(pmap(_shard, [(s, total // 16, max_no) for s in range(16)]))
-    rule = (f"Hypothesis: direction grid ico/cube3D/randomS with N in 4..{max_no}; radial grid with T in 2..6 strictly increasing "
+    rule = (f"Hypothesis: direction grid ico/cube3D/randomS with N in 4..{max_no}; radial grid with T in 2..6 (linspace/range also 7..64 shells) strictly increasing "
             f"positive radii as unsorted list / tuple (free, nearly regular with steps differing by 1e-6..1e-3 nm, or tiny radii), linspace or range text; the four getters called in a generated order and then once more; every cell and every pair "
             f"of cells compared (dense n x n, n = N*T). Non-trivial = T>=3 with unequal increments, or N not a complete "
             f"subdivision level; distinct = distinct (direction grid, radial text).")
